@@ -111,8 +111,17 @@ class C14(Machine):
                 pb.step(c, k="call", obj=o, name="__call__", args=[B(wm)], kw={"bitlen": 8 * len(wm) + 5},
                         tag="warm_rejected", kind=name, role="noise", cls="bad")
             else:
-                wid = pb.step(c, k="call", obj=o, name="__call__", args=[B(wm)], kw={},
-                              tag="warm_oneshot", kind=name, role="noise")
+                wkw = {}
+                if name.startswith("Blake") and not name.startswith("Blake2") and rng.random() < 0.5:
+                    wkw["s"] = rng.getrandbits(4 * w * 8)                 # a salted one-shot before the stream
+                elif name in ("Blake2s", "Blake2b") and rng.random() < 0.5:
+                    wkw[rng.choice(["salt", "pers"])] = B(rbytes(rng, 2 * w))
+                    if rng.random() < 0.5:
+                        wkw["outlen"] = rng.randint(1, 8 * w - 1)
+                elif wm and rng.random() < 0.3 and not name.startswith("Blake2"):
+                    wkw["bitlen"] = 8 * len(wm) - rng.randint(1, 7)
+                wid = pb.step(c, k="call", obj=o, name="__call__", args=[B(wm)], kw=wkw,
+                              tag="warm_oneshot" + ("_opts" if wkw else ""), kind=name, role="noise")
                 if v < 0.5:
                     pb.plan["meta"].setdefault("warm_faults", []).append(wid)
         ini = pb.step(c, k="call", obj=o, name="initstate", args=[], kw={}, tag="init", kind=name, role="init")
@@ -146,11 +155,14 @@ class C14(Machine):
         pb.plan["observe"].append([o, "padmethod.bitcnt"])
         return o
 
-    def _nilsimsa(self, rng, pb, c, streams):
+    def _nilsimsa(self, rng, pb, c, streams, reuse=None):
         rec = {"kind": "Nilsimsa"}
         if rng.random() < 0.3:
             rec["target"] = rng.choice([53, 17, 101])
-        o = pb.obj(rec)
+        if reuse is not None:
+            o, rec = reuse
+        else:
+            o = pb.obj(rec)
         total = rng.choice([0, 1, 2, 3, 4, 5, 6, 9, 20, 40])
         M = rbytes(rng, total)
         k = rng.choice([1, 1, 2, 3, 4])
@@ -166,6 +178,8 @@ class C14(Machine):
             pos = cut
         st["fin"] = pb.step(c, k="call", obj=o, name="digest", args=[], kw={}, tag="ndigest", kind="Nilsimsa", role="fin")
         streams.append(st)
+        if reuse is None and rng.random() < 0.3:
+            self._nilsimsa(rng, pb, c, streams, reuse=(o, rec))     # a second stream on the object (digest() resets it)
 
     def _noise(self, rng, pb, c, faulty, no_singletons=False):
         from .c10_oneshot import KINDS, BAD, ABN, Ctx
